@@ -618,3 +618,352 @@ Proof.
     + apply ord_wal_rotate; assumption.
     + apply ord_fw; assumption.
 Qed.
+
+(** * What a typed REPLAY returns *)
+
+(** the append order the property demands *)
+Definition ctx_events (ls : list label) (u c : N) : list event := of_ctx c (of_uid u (applied ls)).
+
+(** the response writer's de-duplication (first occurrence of an event id kept) *)
+Definition dedup_keys (l : list event) : list event := dedup_ev l [].
+
+(** the fan-in merge of two flows: any interleaving *)
+Inductive Interleave {A} : list A -> list A -> list A -> Prop :=
+| il_nil : Interleave [] [] []
+| il_left x a b r : Interleave a b r -> Interleave (x :: a) b (x :: r)
+| il_right x a b r : Interleave a b r -> Interleave a (x :: b) (x :: r).
+
+Lemma Interleave_perm {A} (a b r : list A) : Interleave a b r -> Permutation r (a ++ b).
+Proof.
+  intros H. induction H; cbn [app]; [constructor | constructor; assumption|].
+  rewrite IHInterleave. apply Permutation_middle.
+Qed.
+
+Lemma Interleave_seq_l {A} (a b : list A) : Interleave a b (a ++ b).
+Proof.
+  induction a as [|x a IH]; cbn [app]; [|constructor; exact IH].
+  induction b; constructor; assumption.
+Qed.
+
+Lemma Interleave_seq_r {A} (a b : list A) : Interleave a b (b ++ a).
+Proof.
+  induction b as [|x b IH]; cbn [app]; [|constructor; exact IH].
+  induction a; constructor; assumption.
+Qed.
+
+(** the memory flow with the passive copies (rotation order) BEFORE the active memtable *)
+Definition replay_mem_fifo (s : shard) (u c : N) : list event :=
+  of_ctx c (of_uid u (concat (map snd (passives s)) ++ mem s)).
+
+(** known class: the context has events of the type both in the active memtable and
+    in a passive copy; the model's (and the engine's) memory flow lists the active
+    memtable first *)
+Definition ActiveBeforePassive (s : shard) (u c : N) : bool :=
+  negb (is_empty (of_ctx c (of_uid u (mem s)))) &&
+  negb (is_empty (of_ctx c (of_uid u (concat (map snd (passives s)))))).
+
+Lemma replay_mem_F s u c : replay_mem s u c = F u c (mem s) ++ F u c (prows (passives s)).
+Proof. unfold replay_mem, mem_rows. fold (prows (passives s)). apply F_app. Qed.
+
+Lemma replay_mem_fifo_F s u c : replay_mem_fifo s u c = F u c (prows (passives s)) ++ F u c (mem s).
+Proof. unfold replay_mem_fifo. fold (prows (passives s)). apply F_app. Qed.
+
+Lemma replay_mem_fifo_eq s u c : ActiveBeforePassive s u c = false -> replay_mem s u c = replay_mem_fifo s u c.
+Proof.
+  rewrite replay_mem_F, replay_mem_fifo_F. unfold ActiveBeforePassive.
+  fold (prows (passives s)). fold (F u c (mem s)). fold (F u c (prows (passives s))).
+  intros H. apply andb_false_iff in H as [H|H]; apply negb_false_iff, is_empty_true in H; rewrite H;
+    rewrite ?app_nil_r; reflexivity.
+Qed.
+
+(** ** membership *)
+
+Lemma nodup_map_filter {A B} (f : A -> B) p l : NoDup (map f l) -> NoDup (map f (filter p l)).
+Proof.
+  induction l as [|x r IH]; cbn [map filter]; intros H; [constructor|].
+  apply NoDup_cons_iff in H as [Hx H]. destruct (p x); [|auto]. cbn [map]. constructor; [|auto].
+  intros Hin. apply Hx. apply in_map_iff in Hin as (y & Hy & Hin). apply filter_In in Hin as [Hin _].
+  rewrite <- Hy. apply in_map, Hin.
+Qed.
+
+Lemma nodup_keys_F u c A : NoDup (map ek A) -> NoDup (map ek (F u c A)).
+Proof. intros H. unfold F, of_ctx, of_uid. apply nodup_map_filter, nodup_map_filter, H. Qed.
+
+Theorem membership_rows : forall c0 ls u c,
+  no_crash ls -> NoDup (map ek (applied ls)) ->
+  let s := run (init c0) ls in
+  forall e, In e (replay_mem s u c ++ replay_seg s u c) <-> In e (ctx_events ls u c).
+Proof.
+  intros c0 ls u c Hc Hk s e. pose proof (inv_rows _ _ (inv_run c0 ls Hc Hk)) as Hrows. fold s in Hrows.
+  change (replay_mem s u c ++ replay_seg s u c) with (F u c (mem_rows s) ++ F u c (seg_rows s)).
+  rewrite <- F_app. change (ctx_events ls u c) with (F u c (applied ls)). rewrite !F_in, Hrows. tauto.
+Qed.
+
+Theorem membership_interleavings : forall c0 ls u c r,
+  no_crash ls -> NoDup (map ek (applied ls)) ->
+  let s := run (init c0) ls in
+  Interleave (replay_mem s u c) (replay_seg s u c) r ->
+  Permutation (dedup_keys r) (ctx_events ls u c).
+Proof.
+  intros c0 ls u c r Hc Hk s Hi. pose proof (membership_rows c0 ls u c Hc Hk) as Hm. cbv zeta in Hm. fold s in Hm.
+  pose proof (Interleave_perm _ _ _ Hi) as Hp.
+  assert (Hr : forall e, In e r <-> In e (ctx_events ls u c)).
+  { intros e. rewrite <- Hm. split; apply Permutation_in; [exact Hp | symmetry; exact Hp]. }
+  apply NoDup_Permutation.
+  - apply (NoDup_map_inv ek). apply ShardC03Proofs.dedup_keys.
+  - apply (NoDup_map_inv ek). apply (nodup_keys_F u c), Hk.
+  - intros e. unfold dedup_keys. split.
+    + intros He. apply ShardC03Proofs.dedup_keys in He as [_ He]. apply Hr, He.
+    + intros He. apply dedup_in; [|apply Hr, He | reflexivity].
+      intros a b Ha Hb. apply Hr in Ha, Hb. apply F_in in Ha as [Ha _], Hb as [Hb _].
+      apply (nodup_map_inj_on ek (applied ls) Hk); assumption.
+Qed.
+
+(** ** order inside the tiers *)
+
+Lemma concat_filter_nil {A B} (f : A -> list B) p l :
+  (forall x, In x l -> p x = false -> f x = []) -> concat (map f (filter p l)) = concat (map f l).
+Proof.
+  induction l as [|x r IH]; cbn [filter map concat]; intros H; [reflexivity|].
+  assert (Hr : forall y, In y r -> p y = false -> f y = []) by (intros y Hy; apply H; right; exact Hy).
+  destruct (p x) eqn:Hp; cbn [map concat]; rewrite (IH Hr); [reflexivity|].
+  rewrite (H x (or_introl eq_refl) Hp). reflexivity.
+Qed.
+
+Lemma seg_rows_all A s : Ord A s -> seg_rows s = all_rows (dirs s).
+Proof.
+  intros O. unfold seg_rows, scanned_dirs, all_rows. apply concat_filter_nil. intros d Hd Hp.
+  destruct (srows d) as [|e r] eqn:Er; [reflexivity|]. exfalso.
+  apply orb_false_iff in Hp as [H1 H2].
+  destruct (o_scan _ _ _ _ _ _ _ O d Hd) as [H|H]; [rewrite Er; discriminate | congruence | congruence].
+Qed.
+
+Lemma prows_nil dn : (forall p : N * list event, In p dn -> snd p = []) -> prows dn = [].
+Proof.
+  unfold prows. induction dn as [|p r IH]; cbn [map concat]; intros H; [reflexivity|].
+  rewrite (H p (or_introl eq_refl)), IH; [reflexivity|]. intros q Hq. apply H. right. exact Hq.
+Qed.
+
+Definition pasev (j : job) : list event := if has_passive (jstage j) then jevs j else [].
+
+Lemma ord_prows A m ps lv infl ds js :
+  OrdC A m ps lv infl ds js -> prows ps = concat (map pasev js).
+Proof.
+  intros O. destruct (o_pas _ _ _ _ _ _ _ O) as (dn & Hdn & ->).
+  unfold prows. rewrite map_app, concat_app. fold (prows dn). rewrite (prows_nil dn Hdn). cbn [app].
+  rewrite map_map. reflexivity.
+Qed.
+
+Lemma subseq_fifo A m ps lv infl ds js :
+  OrdC A m ps lv infl ds js -> Subseq (prows ps ++ m) A.
+Proof.
+  intros O. rewrite (ord_prows _ _ _ _ _ _ _ O). destruct (o_part _ _ _ _ _ _ _ O) as (old & ->).
+  apply Subseq_app_l, Subseq_app; [|apply Subseq_refl]. apply Subseq_concat_map.
+  intros j _. unfold pasev. destruct (has_passive (jstage j)); [apply Subseq_refl | apply Subseq_nil_l].
+Qed.
+
+Theorem order_within_tier : forall c0 ls u c,
+  no_crash ls -> NoDup (map ek (applied ls)) ->
+  let s := run (init c0) ls in
+  Subseq (replay_seg s u c) (ctx_events ls u c) /\
+  (forall d, In d (dirs s) -> Subseq (of_ctx c (of_uid u (srows d))) (ctx_events ls u c)) /\
+  Subseq (of_ctx c (of_uid u (mem s))) (ctx_events ls u c) /\
+  (forall p, In p (passives s) -> Subseq (of_ctx c (of_uid u (snd p))) (ctx_events ls u c)) /\
+  Subseq (replay_mem_fifo s u c) (ctx_events ls u c).
+Proof.
+  intros c0 ls u c Hc Hk s. pose proof (ord_run c0 ls Hc Hk) as O. fold s in O.
+  change (ctx_events ls u c) with (F u c (applied ls)).
+  pose proof (o_seq _ _ _ _ _ _ _ O u c) as Hseq.
+  assert (Hall : Subseq (F u c (all_rows (dirs s))) (F u c (applied ls))).
+  { rewrite <- Hseq. apply Subseq_app_r, Subseq_refl. }
+  assert (Hfifo : Subseq (F u c (prows (passives s) ++ mem s)) (F u c (applied ls))).
+  { apply F_subseq. exact (subseq_fifo _ _ _ _ _ _ _ O). }
+  split; [|split; [|split; [|split]]].
+  - unfold replay_seg. fold (F u c (seg_rows s)). rewrite (seg_rows_all _ _ O). exact Hall.
+  - intros d Hd. eapply Subseq_trans; [|exact Hall]. apply F_subseq. unfold all_rows.
+    apply Subseq_concat_in, in_map, Hd.
+  - rewrite <- Hseq. apply Subseq_app_l, Subseq_app_l, Subseq_refl.
+  - intros p Hp. eapply Subseq_trans; [|exact Hfifo]. apply F_subseq, Subseq_app_r. unfold prows.
+    apply Subseq_concat_in, in_map, Hp.
+  - exact Hfifo.
+Qed.
+
+Theorem mem_flow_order_outside_known : forall c0 ls u c,
+  no_crash ls -> NoDup (map ek (applied ls)) ->
+  let s := run (init c0) ls in
+  ActiveBeforePassive s u c = false ->
+  Subseq (replay_mem s u c) (ctx_events ls u c).
+Proof.
+  intros c0 ls u c Hc Hk s Hn. rewrite (replay_mem_fifo_eq s u c Hn).
+  apply (order_within_tier c0 ls u c Hc Hk).
+Qed.
+
+(** a decision procedure for [Subseq] on events (greedy matching) *)
+Fixpoint subseqb (a b : list event) : bool :=
+  match a, b with
+  | [], _ => true
+  | _ :: _, [] => false
+  | x :: a', y :: b' => if ev_eqb x y then subseqb a' b' else subseqb a b'
+  end.
+
+Lemma Subseq_cons_l {A} (x : A) a b : Subseq (x :: a) b -> Subseq a b.
+Proof. intros H. eapply Subseq_trans; [|exact H]. constructor. apply Subseq_refl. Qed.
+
+Lemma subseqb_complete a b : Subseq a b -> subseqb a b = true.
+Proof.
+  revert a. induction b as [|y b IH]; intros a H.
+  - inversion H. reflexivity.
+  - destruct a as [|x a]; [reflexivity|]. cbn [subseqb]. destruct (ev_eqb x y) eqn:E.
+    + apply IH. inversion H; subst; [eapply Subseq_cons_l; eassumption | assumption].
+    + apply IH. inversion H; subst; [assumption|].
+      assert (T : ev_eqb y y = true) by (apply ev_eqb_eq; reflexivity). congruence.
+Qed.
+
+(** Refuted: the memory flow itself (active memtable, then passive copies) is not in
+    append order: k1 is rotated by a manual FLUSH (job still queued), k2 arrives. *)
+Definition ls_abp : list label := [LStore (mkEv 1 1 0); LFlushCmd; LStore (mkEv 2 1 0)].
+
+Lemma mem_flow_order_refuted :
+  exists c0 ls u c,
+    let s := run (init c0) ls in
+    no_crash ls /\ NoDup (map ek (applied ls)) /\ ActiveBeforePassive s u c = true /\
+    map ek (replay_mem s u c) = [2; 1] /\ map ek (ctx_events ls u c) = [1; 2] /\
+    ~ Subseq (replay_mem s u c) (ctx_events ls u c).
+Proof.
+  exists 4, ls_abp, 0, 1. cbv zeta.
+  split; [vm_compute; reflexivity|]. split; [apply nodupb_sound; vm_compute; reflexivity|].
+  split; [vm_compute; reflexivity|]. split; [vm_compute; reflexivity|]. split; [vm_compute; reflexivity|].
+  intros H. apply subseqb_complete in H. vm_compute in H. discriminate.
+Qed.
+
+(** ** sequential composition: segments, then passives, then the memtable *)
+
+Lemma dedup_filter l : forall seen (p : event -> bool),
+  (forall e, In e l -> p e = false -> memb (ek e) seen = true) ->
+  dedup_ev (filter p l) seen = dedup_ev l seen.
+Proof.
+  induction l as [|x r IH]; intros seen p H; cbn [filter dedup_ev]; [reflexivity|].
+  destruct (p x) eqn:Hp.
+  - cbn [dedup_ev]. destruct (memb (ek x) seen) eqn:Hm.
+    + apply IH. intros e He. apply H. right. exact He.
+    + f_equal. apply IH. intros e He Hpe. rewrite memb_cons, (H e (or_intror He) Hpe). apply orb_true_r.
+  - rewrite (H x (or_introl eq_refl) Hp). apply IH. intros e He. apply H. right. exact He.
+Qed.
+
+Lemma dedup_absorb Y Y' : forall X seen,
+  NoDup (map ek (X ++ Y)) -> (forall e, In e (X ++ Y) -> memb (ek e) seen = false) ->
+  filter (fun e => negb (memb (ek e) (map ek X ++ seen))) Y' = Y ->
+  dedup_ev (X ++ Y') seen = X ++ Y.
+Proof.
+  induction X as [|x X IH]; intros seen Hn Hs Hf; cbn [app] in *.
+  - rewrite <- (dedup_filter Y' seen (fun e => negb (memb (ek e) seen))).
+    + cbn [map app] in Hf. rewrite Hf. apply dedup_id; assumption.
+    + intros e _ He. apply negb_false_iff in He. exact He.
+  - cbn [dedup_ev]. rewrite (Hs x (or_introl eq_refl)). f_equal.
+    cbn [map] in Hn. apply NoDup_cons_iff in Hn as [Hx Hn]. apply IH; [exact Hn | |].
+    + intros e He. rewrite memb_cons, (Hs e (or_intror He)), orb_false_r. apply N.eqb_neq.
+      intros E. apply Hx. rewrite <- E. apply in_map, He.
+    + rewrite <- Hf. apply filter_ext. intros e. f_equal. cbn [map app].
+      rewrite !memb_app, !memb_cons, memb_app.
+      destruct (memb (ek e) (map ek X)), (ek e =? ek x), (memb (ek e) seen); reflexivity.
+Qed.
+
+Lemma written_dhu ps lv ds j u :
+  JobOk ps lv ds j -> written (jstage j) = true -> dhu ds (jseg j) u = false -> of_uid u (jevs j) = [].
+Proof.
+  intros Jok Hw Hd. unfold of_uid. apply filter_none. intros e He.
+  destruct (euid e =? u) eqn:E; [|reflexivity]. apply N.eqb_eq in E. exfalso.
+  assert (T : dhu ds (jseg j) u = true); [|congruence].
+  apply dhu_spec. exists e. split; [|exact E]. apply (jo_wr _ _ _ _ Jok); assumption.
+Qed.
+
+Lemma seg_then_fifo A s u c :
+  Inv A s -> Ord A s -> NoDup (map ek A) ->
+  dedup_keys (F u c (all_rows (dirs s)) ++ F u c (prows (passives s)) ++ F u c (mem s)) = F u c A.
+Proof.
+  intros I O Hk. pose proof (o_seq _ _ _ _ _ _ _ O u c) as Hseq.
+  set (X := F u c (all_rows (dirs s))) in *.
+  assert (Hn : NoDup (map ek (X ++ F u c (pend (jobs s) (dirs s) u) ++ F u c (mem s)))).
+  { rewrite Hseq. apply nodup_keys_F, Hk. }
+  unfold dedup_keys. rewrite <- Hseq. apply dedup_absorb; [exact Hn | reflexivity|].
+  rewrite app_nil_r. rewrite map_app in Hn. apply nodup_app in Hn as (_ & _ & Hdisj).
+  assert (Hout : forall e, In e (F u c (pend (jobs s) (dirs s) u) ++ F u c (mem s)) ->
+                 negb (memb (ek e) (map ek X)) = true).
+  { intros e He. apply negb_true_iff, memb_false. intros Hin. apply (Hdisj (ek e) Hin). apply in_map, He. }
+  rewrite filter_app. f_equal.
+  2:{ apply filter_all, forallb_forall. intros e He. apply Hout, in_app_iff. right. exact He. }
+  rewrite (ord_prows _ _ _ _ _ _ _ O). unfold pend. rewrite !F_concat_map, filter_concat_map.
+  apply concat_map_ext_in. intros j Hj.
+  pose proof (i_job _ _ _ _ _ _ _ I j Hj) as Jok. unfold pasev.
+  destruct (has_passive (jstage j)) eqn:Hp, (dhu (dirs s) (jseg j) u) eqn:Hd.
+  - (* written, passive copy not yet released: all of them are in the directory *)
+    apply filter_none. intros e He. apply negb_false_iff, memb_true, in_map.
+    apply F_in in He as (He & Hu & Hcx). apply F_in. split; [|auto].
+    apply (rows_of_sub_all _ (jseg j)).
+    destruct (written (jstage j)) eqn:Hw.
+    + apply (jo_wr _ _ _ _ Jok); assumption.
+    + apply dhu_spec in Hd as (e' & He' & Hu'). apply (jo_w _ _ _ _ Jok Hw e e'); [assumption.. | congruence].
+  - (* not written *)
+    apply filter_all, forallb_forall. intros e He. apply Hout, in_app_iff. left.
+    apply F_in in He as (He & Hu & Hcx). apply F_in. split; [|auto].
+    apply in_concat. exists (jevs j). split; [|exact He].
+    apply in_map_iff. exists j. rewrite Hd. auto.
+  - reflexivity.
+  - (* released: written *)
+    rewrite (F_of_uid_none u c (jevs j)); [reflexivity|].
+    eapply written_dhu; [exact Jok | | exact Hd]. destruct (jstage j); try discriminate; reflexivity.
+Qed.
+
+Theorem seg_then_mem_append_order : forall c0 ls u c,
+  no_crash ls -> NoDup (map ek (applied ls)) ->
+  let s := run (init c0) ls in
+  dedup_keys (replay_seg s u c ++ replay_mem_fifo s u c) = ctx_events ls u c.
+Proof.
+  intros c0 ls u c Hc Hk s. pose proof (ord_run c0 ls Hc Hk) as O. pose proof (inv_run c0 ls Hc Hk) as I. fold s in O, I.
+  rewrite replay_mem_fifo_F. unfold replay_seg. fold (F u c (seg_rows s)). rewrite (seg_rows_all _ _ O).
+  apply seg_then_fifo; assumption.
+Qed.
+
+Theorem seg_then_mem_outside_known : forall c0 ls u c,
+  no_crash ls -> NoDup (map ek (applied ls)) ->
+  let s := run (init c0) ls in
+  ActiveBeforePassive s u c = false ->
+  dedup_keys (replay_seg s u c ++ replay_mem s u c) = ctx_events ls u c.
+Proof.
+  intros c0 ls u c Hc Hk s Hn. rewrite (replay_mem_fifo_eq s u c Hn).
+  apply seg_then_mem_append_order; assumption.
+Qed.
+
+Lemma seg_then_mem_refuted :
+  exists c0 ls u c,
+    let s := run (init c0) ls in
+    no_crash ls /\ NoDup (map ek (applied ls)) /\ ActiveBeforePassive s u c = true /\
+    map ek (dedup_keys (replay_seg s u c ++ replay_mem s u c)) = [2; 1] /\
+    map ek (ctx_events ls u c) = [1; 2].
+Proof.
+  exists 4, ls_abp, 0, 1. cbv zeta.
+  split; [vm_compute; reflexivity|]. split; [apply nodupb_sound; vm_compute; reflexivity|].
+  repeat split; vm_compute; reflexivity.
+Qed.
+
+(** ** the fan-in finding: MemtableAndSegmentFlowsInterleave *)
+
+Definition ls_fanin : list label :=
+  [LStore (mkEv 1 1 0); LStore (mkEv 2 2 0); LStore (mkEv 3 1 0); LFlushCmd] ++ flush_all [0]
+  ++ [LStore (mkEv 4 1 0)].
+
+Lemma fanin_order_refuted :
+  exists c0 ls u c r,
+    let s := run (init c0) ls in
+    no_crash ls /\ NoDup (map ek (applied ls)) /\ jobs s = [] /\ ActiveBeforePassive s u c = false /\
+    Interleave (replay_mem s u c) (replay_seg s u c) r /\
+    map ek (dedup_keys r) = [4; 1; 3] /\ map ek (ctx_events ls u c) = [1; 3; 4] /\
+    ~ Subseq (dedup_keys r) (ctx_events ls u c).
+Proof.
+  exists 4, ls_fanin, 0, 1, [mkEv 4 1 0; mkEv 1 1 0; mkEv 3 1 0]. cbv zeta.
+  split; [vm_compute; reflexivity|]. split; [apply nodupb_sound; vm_compute; reflexivity|].
+  split; [vm_compute; reflexivity|]. split; [vm_compute; reflexivity|].
+  split; [vm_compute; repeat constructor|].
+  split; [vm_compute; reflexivity|]. split; [vm_compute; reflexivity|].
+  intros H. apply subseqb_complete in H. vm_compute in H. discriminate.
+Qed.
